@@ -102,6 +102,9 @@ def c12(c):
                       "returned nil must appear on the wire as one whole frame sequence, a refused one must leave nothing (otherwise the peer cannot deliver "
                       "the following messages)"]
 
+    c.assumptions += ["client tier (real websocket.Dialer against a real nbhttp server, directly and through a coalescing relay; real sockets on loopback): the TLS cells use TLS 1.2 "
+                      "(the dependency's blocking TLS 1.3 client handshake fails, reported by the C10 harness as an observation); a failing cell is run twice before it is reported"]
+
     def send_queue_tier(c):
         import props_wsconc
         c.harness("wsconc", ["-n", "0", "-qn", n(c, 400, 5000)], overlay=False, model=props_wsconc.MODEL, timeout=3000)
@@ -151,7 +154,17 @@ MANIFEST = {
              "and side, compression off on some pairs, ReleasePayload on/off, the library's reader behind the public decompressor hook on some, shared and "
              "per-engine body allocators (mempool.DefaultMemPool, mempool.NewAligned(), mempool.NewSTD() and a harness-side always-relocating, poisoning allocator - also a dimension of the lock-step tiers of C12/C13/C15 on sender and receiver side); every message must be delivered exactly once with its type and payload (signatures concurrent-pairs-payload/-lost/"
              "-duplicated/-type/-panic/-stuck): this crosses the package-level state the codec shares between connections (flate reader pool, flate writer pools "
-             "per level, the default BodyAllocator).",
+             "per level, the default BodyAllocator). "
+             "Small-limit family (every run; shared with C13): MessageLengthLimit 64/100/256/1024/2048 x a long valid sequence of small messages (one exactly at the limit, some "
+             "fragmented, pings between and inside) whose wire is > 5 x the limit, fed whole, as 1 byte + rest, 2 bytes + rest, cut inside the header / inside the payload of frames "
+             "1, 2, 3, middle, last-but-one, first frame + 1 byte + rest, random cuts, per frame: every cut must deliver what the one-piece feed delivers (signature "
+             "delivery-depends-on-segmentation; c12_segmentation_limit is the theorem). "
+             "Client tier (every run, -parts 12d): the real websocket.Dialer (sync Dial and async Dial with the result handler) on a started client engine against a real nbhttp "
+             "server whose OnOpen writes five greetings (text, empty, 126 bytes, 5000 bytes, text) immediately behind the 101 and which echoes; plain and TLS (library TLS client, "
+             "TLS 1.2); direct, and through an in-process TCP relay that holds the server->client bytes until the link was quiet for 120 ms and delivers them in ONE write "
+             "(handshake answer and first frames in the same read); with and without greetings; the client writes five messages (0/125/70000 bytes) right after Dial returned. "
+             "Oracle: Dial succeeds, the greetings arrive once and in order, then the echoes, the connection stays open (signatures dialer-dial-failed/-greeting-lost/-echo-lost/"
+             "-message-differs/-message-duplicated/-write-failed/-conn-closed; a failing cell is run twice before it is reported).",
         note="The theorems are about the model; DEFLATE (law assumed: reading the decompressor's answers to the end gives the message), the unrolled XOR loop, ReadLimit > 0 "
              "(segmentation-dependent by design) and connections mixing compressed and uncompressed messages are outside the proof and decided by the differential run and "
              "the oracle. Found on the pinned tree and fixed in /repo (D29 control frames fragmented when MaxWebsocketFramePayloadSize < payload, D30 control frames counted "
@@ -179,7 +192,12 @@ MANIFEST = {
              "crossed with the handler configuration {OnMessage only (the model's), OnDataFrame only, both, none}: 2/3/4-byte characters cut at every inner position into up to four "
              "fragments, sequences that are invalid only across the boundary; a sequence the RFC allows must be accepted in every configuration, OnDataFrame gets every non-empty data "
              "frame in order (type of its message, FIN, raw payload), whole-message checks (UTF-8, inflate) are demanded only where a message handler exists, "
-             "and the model must agree with the implementation.",
+             "and the model must agree with the implementation. "
+             "Small-limit family (every run, before the generator): a receiver with MessageLengthLimit 64/100/256/1024/2048 (ReadLimit off or far away) and a long VALID sequence "
+             "of messages within the limit (one exactly at it, fragmented ones, pings between and inside fragments) whose wire is > 5 x the limit, fed whole, 1 byte + rest, "
+             "2 bytes + rest, cut inside the header and inside the payload of frames 1, 2, 3, middle, last-but-one, first frame + 1 byte + rest, random cuts, per frame: every "
+             "segmentation must be accepted with the RFC reference's deliveries and pongs (signature valid-sequence-rejected etc.; c13_sequences_segmented with the C15 limit clause "
+             "is the theorem).",
         note="c13_sequences is about the model; the model is tied to the code by the generated tables (re-dumped from the code through the overlay before every Coq build) and the "
              "differential run. Deliveries are counted up to the point where the endpoint itself closes the connection: what Parse still does with later frames of the SAME read "
              "after it failed the connection from a handler is an observation kept behind the harness flag -strict-after-fail. With permessage-deflate the decompressor's answers "
